@@ -439,6 +439,9 @@ def main():
     totals = run_units(h, any_unit, units + special_units(thorough))
     h.note(f"inputs accepted {totals.get('accepted', 0)}, rejected {totals.get('rejected', 0)}, parsers not built {totals.get('parser-not-built', 0)}")
     h.check(totals.get("accepted", 0) > 0 and totals.get("rejected", 0) > 0, "c10:vacuity", "both accepted and rejected inputs must occur", totals)
+    if h.only:  # replay: report only the requested key (exit status 1 iff it still fails)
+        h.violations = [v for v in h.violations if v["key"] == h.only]
+        h.viol_keys = {v["key"] for v in h.violations}
     if len(h.viol_keys) > len(h.violations):
         stored = {v["key"] for v in h.violations}
         h.note(f"{len(h.viol_keys)} distinct violation keys, only {len(h.violations)} stored; the others: " + " | ".join(sorted(h.viol_keys - stored)))
